@@ -6,5 +6,6 @@ ASSUME TableConsistent
 ASSUME EmitEnums
 ASSUME EmitRefs
 ASSUME EmitBig
+ASSUME EmitTiny
 ASSUME PrintT("UNIVERSE " \o ToString(Cardinality(Universe)) \o " generated " \o ToString(Cardinality(Generated)))
 =============================================================================
